@@ -19,6 +19,8 @@
 (*   PickArg       one model name per formal parameter that occurs (any    *)
 (*                 name declared so far: permuted, repeated, `time`,       *)
 (*                 derived quantities, reaction rates)                     *)
+(*   Reuse         instead: the slot takes the FUNCTION of an earlier      *)
+(*                 component, applied to the same names in another order   *)
 (*   Commit        the slot enters the model; a reaction also takes a      *)
 (*                 stoichiometry from a menu with numeric, fractional and  *)
 (*                 COMPUTED coefficients of either sign (parameter-, state-*)
@@ -271,7 +273,36 @@ Commit ==
     /\ args' = <<>>
     /\ UNCHANGED <<slots, scheme>>
 
-Next == Expand \/ PickArg \/ Commit
+\* ---- one function, several components ------------------------------------------------------------------
+\* A slot may REUSE the function of an earlier derived quantity / reaction that has at least two formal
+\* parameters, applied to the same model names in another order (first two swapped, or rotated).  Together with
+\* the naming scheme "formal" (model names = the function's own parameter names) this is the shape
+\* `def f(a, b, c)` used with ["b", "a", "c"] and ["a", "b", "c"], where renaming the parameters one after the other
+\* instead of simultaneously goes wrong.  (The replayer renders equal function records as ONE Python function.)
+Earlier == {j \in 1..(i - 1) : slots[j].kind \in {"der", "rxn"}}
+UseOf(j) == IF slots[j].kind = "der" THEN c.der[slots[j].name] ELSE c.rxn[slots[j].name]
+Swap(a) == [k \in DOMAIN a |-> IF k = 1 THEN a[2] ELSE IF k = 2 THEN a[1] ELSE a[k]]
+Rot(a)  == [k \in DOMAIN a |-> a[(k % Len(a)) + 1]]
+ReuseSt == {st \in StMenu : \A v \in DOMAIN st : st[v].k = "num"}      \* keeps the successor set small
+Reuse ==
+    /\ ~Done /\ toks = <<>> /\ todo = Fresh /\ slots[i].kind \in {"der", "rxn"}
+    /\ \E j \in Earlier :
+          /\ Len(UseOf(j).fn.params) >= 2
+          /\ \A m \in Earlier : m > j => Len(UseOf(m).fn.params) < 2          \* the most recent eligible one
+          /\ \E as \in {Swap(UseOf(j).args), Rot(UseOf(j).args)} :
+                LET s == slots[i] f == UseOf(j).fn IN
+                \/ /\ s.kind = "der"
+                   /\ c' = [c EXCEPT !.der = @ @@ (s.name :> [fn |-> f, args |-> as])]
+                \/ /\ s.kind = "rxn"
+                   /\ \E st \in {x \in ReuseSt : Cardinality(DOMAIN x) = 1} :
+                         c' = [c EXCEPT !.rxn = @ @@ (s.name :> [fn |-> f, args |-> as, st |-> st])]
+    /\ i' = i + 1
+    /\ toks' = <<>>
+    /\ todo' = IF i + 1 <= Len(slots) THEN Fresh ELSE <<>>
+    /\ args' = <<>>
+    /\ UNCHANGED <<slots, scheme>>
+
+Next == Expand \/ PickArg \/ Commit \/ Reuse
 
 Spec == Init /\ [][Next]_vars
 
@@ -422,6 +453,12 @@ RenameInvariant ==
              IN /\ DOMAIN rr = DOMAIN rc /\ \A m \in DOMAIN rc : SameValue(rr[m], rc[m])
                 /\ M!ArgsAt(r, RenTab(p.y), p.t) = RenTab(M!ArgsAt(c, p.y, p.t))
                 /\ M!InitialValues(r) = RenTab(M!InitialValues(c))
+
+\* two components sharing one function (same record) with different argument lists
+Shared(cc) == \E d \in DOMAIN cc.der, r \in DOMAIN cc.rxn :
+                 cc.der[d].fn = cc.rxn[r].fn /\ cc.der[d].args # cc.rxn[r].args /\ Len(cc.der[d].fn.params) >= 2
+\* used NEGATED in SbmlRoundTrip_mcreuse.cfg: TLC must find a finished model with a shared function (vacuity guard)
+NoReuse == ~(Done /\ Shared(c))
 
 \* a variable no reaction touches has derivative 0
 UntouchedZero ==
